@@ -12,6 +12,7 @@
 #include <errno.h>
 #include <setjmp.h>
 #include <sys/stat.h>
+#include <sys/mman.h>
 #include "sim.h"
 
 typedef struct SFile {
@@ -405,6 +406,46 @@ int __wrap_access(const char *path, int mode)
     if (!f || f->kind == '?') { errno = ENOENT; return -1; }
     if (f->kind == 'x' && (mode & 4)) { errno = EACCES; return -1; }
     return 0;
+}
+
+/* ---- other ways a change may get at file contents through a descriptor opened on a simulated file */
+void *__real_mmap(void *addr, size_t len, int prot, int flags, int fd, off_t off);
+void *__wrap_mmap(void *addr, size_t len, int prot, int flags, int fd, off_t off)
+{
+    Stream *st = g_in_call ? fd_get(fd) : NULL;
+    if (!st) return __real_mmap(addr, len, prot, flags, fd, off);
+    if (st->f->kind == 'p' || st->f->kind == 'd' || st->f->kind == 'D') { errno = ENODEV; return MAP_FAILED; }     /* pipes and directories cannot be mapped */
+    if (len == 0 || off < 0) { errno = EINVAL; return MAP_FAILED; }
+    /* a private copy in real anonymous memory (munmap works on it unchanged); bytes past the end of the file are zero */
+    unsigned char *m = __real_mmap(NULL, len, PROT_READ | PROT_WRITE, MAP_PRIVATE | MAP_ANONYMOUS, -1, 0);
+    if (m == MAP_FAILED) return m;
+    if ((size_t)off < st->f->n) { size_t k = st->f->n - (size_t)off; if (k > len) k = len; memcpy(m, st->f->data + off, k); }
+    g_probe[PR_FS_READS]++;
+    return m;
+}
+ssize_t __real_pread(int fd, void *buf, size_t n, off_t off);
+ssize_t __wrap_pread(int fd, void *buf, size_t n, off_t off)
+{
+    Stream *st = g_in_call ? fd_get(fd) : NULL;
+    if (!st) return __real_pread(fd, buf, n, off);
+    if (st->f->kind == 'p') { errno = ESPIPE; return -1; }
+    size_t save = st->pos; st->pos = (size_t)off;
+    ssize_t r = ck_read(st, buf, n);
+    st->pos = save;
+    return r;
+}
+FILE *__real_fdopen(int fd, const char *mode);
+FILE *__wrap_fdopen(int fd, const char *mode)
+{
+    Stream *st = g_in_call ? fd_get(fd) : NULL;
+    if (!st) {
+        if (g_in_call && fd == 0 && g_stdin_stream && mode[0] == 'r') return g_stdin_stream->fp;
+        return __real_fdopen(fd, mode);
+    }
+    cookie_io_functions_t io = { st->mode ? NULL : ck_read, st->mode ? ck_write : NULL, ck_seek, ck_close };
+    FILE *fp = fopencookie(st, st->mode ? "w" : "r", io);
+    if (fp) { st->fp = fp; st->fd_only = 0; }
+    return fp;
 }
 
 /* ---- name-space operations: a change of kalign that writes to a temporary name and renames it, or removes a
